@@ -150,7 +150,8 @@ def mutate_input(rng, data, wl, fmt, which):
         i = pick_seq_line()
         if i is None:
             return data
-        lines[i] = lines[i] * rng.choice([50, 400])
+        if len(data) < 100000:
+            lines[i] = lines[i] * rng.choice([50, 400])
         return b'\n'.join(lines)
     if which == 'extra_block_row' and fmt != 'fasta':
         i = pick_seq_line()
@@ -184,7 +185,9 @@ BAD_ARGS = [['--frobnicate'], ['-n'], ['-n', '0'], ['-n', '-3'], ['-n', 'abc'], 
 def gen_spec(prop, rng, tier):
     wl = gen.gen_workload(rng, weights=[25, 45, 12, 4, 2, 6, 6])
     vg = 1 if rng.random() < (0.02 if tier == 'quick' else 0.06) else 0
-    if vg and rng.random() < 0.5:
+    if vg and tier == 'quick' and wl['profile'] in ('hirsch', 'kmeans', 'medium', 'ratio'):
+        vg = 0                         # memcheck is ~30x slower: quick tier keeps to small inputs
+    if vg and tier != 'quick' and rng.random() < 0.5:
         # memcheck sample: also reach the parallel Hirschberg region (>= 500 columns)
         wl = gen.gen_workload(rng, profile='hirsch')
         wl['seqs'] = [x[:rng.randint(520, 640)] for x in wl['seqs'][:3]]; wl['names'] = wl['names'][:len(wl['seqs'])]
@@ -199,6 +202,8 @@ def gen_spec(prop, rng, tier):
                 m = 'name_with_blanks'
             data = mutate_input(rng, data, wl, fmt_in, m)
             muts.append(m)
+        if len(data) > 200000:
+            data = data[:200000]          # keep one scenario (x ~25 fault placements) affordable
     mode = rng.choices(['cli', 'lib', 'arr'], [6, 3, 1])[0] if cls != 'options' else 'cli'
     fmt_out = rng.choice(['fasta', 'msf', 'clu']) if 'name_with_blanks' not in muts else 'fasta'
     nthreads = rng.choice([1, 2, 4, 8])
@@ -233,7 +238,10 @@ def enumerate_faults(spec, rng):
     n = len(spec['data'])
     F = [{'k': 'stat', 'e': 'ENOENT'}, {'k': 'stat', 'e': 'EACCES'},
          {'k': 'openr', 'e': 'ENOENT'}, {'k': 'openr', 'e': 'EACCES'}, {'k': 'openr', 'e': 'EMFILE'}, {'k': 'input_is_dir'}]
-    offs = sorted(set([0, 1, n // 4, n // 2, max(0, n - 1)] + list(range(4096, n, 4096)) + [rng.randrange(n + 1) for _ in range(2)]))
+    blocks = list(range(4096, n, 4096))
+    if len(blocks) > 10:
+        blocks = sorted(rng.sample(blocks, 10))      # every 4096-byte read of inputs up to 40 KB, a sample beyond
+    offs = sorted(set([0, 1, n // 4, n // 2, max(0, n - 1)] + blocks + [rng.randrange(n + 1) for _ in range(2)]))
     for o in offs:
         if o <= n:
             F.append({'k': 'read', 'e': 'EIO', 'at': o})
@@ -469,7 +477,8 @@ def outcome(spec, res, ix, fault):
             if loose_valid(r2, extra + data + data) is None:
                 why = None
                 break
-    if why and (any(n == b'' for n, _ in rows) or (fmt != 'fasta' and b'\n ' in text and spec['cls'] != 'wellformed')):
+    garbage_in = spec['cls'] != 'wellformed' or (fault and fault['k'] == 'read')     # a read fault truncates mid-line
+    if why and (any(n == b'' for n, _ in rows) or (fmt != 'fasta' and b'\n ' in text and garbage_in)):
         # garbage input made kalign read a sequence without a name; a nameless row cannot be told from
         # padding in msf/clu, so the content oracle is not applied (memory safety etc. still are)
         why = None
